@@ -12,6 +12,12 @@ CHECKS = {
         technique="Coq proof (induction-free case analysis over list/scalar fields) + exhaustive model/implementation correspondence evaluated by vm_compute",
         design="6/C16",
     ),
+    "C18": dict(
+        text="Machine-checked Coq theorems (any numbers of towers/steps, any value types) about Model/NetcdfAsm.v, the repaired save_footprints_to_netcdf: every (time,tower) block of both arrays is the corresponding result's field, coordinates/labels/met in order, each tower name carries its own lat/lon/height for every results-key order (sub-lists, permutations), saving succeeds for them, selection by name/label/both returns exactly that block; the original positional labelling is refuted (vm_compute witnesses). Model tied to bldfm.io on every run by real save/load round trips compared bit for bit and row for row with the model.",
+        note="Partial: xarray/netCDF4/zlib are not modelled - read (write d) = d is a theorem hypothesis, validated (not proved) by bit-level real round trips over towers 1..4 x steps 1..4 x 2-D/3-D x key orders x timestamp kinds x forcings. Hand-written model; tie is differential execution. Theorems closed under the global context.",
+        technique="Coq proof (structural induction on association lists / nth_error) + exact model/implementation correspondence of real NetCDF round trips evaluated by vm_compute; property oracle with bit-pattern comparison",
+        design="6/C18",
+    ),
 }
 
 NOT_YET = "check not built yet in this round of work (planned in DESIGN.md section 6); no claim is made"
